@@ -17,6 +17,20 @@ from . import c02_components as comp
 PROP = "C02"
 
 
+# file-system bookkeeping that the observation counts (creations, deletions, accesses) driven two (thorough: three) deep
+FS_HINTS = [("do-nothing", ""), ("node-file-delete", "'a.txt'"), ("node-file-delete", "'b.txt'"), ("node-send-local-command", "'restore'"),
+            ("node-send-local-command", "'delete'"), ("node-file-restore", "'a.txt'"), ("node-folder-restore", "'docs'"),
+            ("node-file-create", "'new.txt'"), ("node-file-create", "'n.txt'"), ("node-file-access", "'a.txt'"),
+            ("node-shutdown", "'backup_server'"), ("node-startup", "'backup_server'"), ("node-folder-create", "'docs'")]
+
+
+def plan(tier):
+    P = c01.scenarios(tier)
+    for v in (HE.GEN[0], HE.GEN[1]):  # members that observe the access counts (nested and flattened)
+        P.append((v["name"] + "-fs2", HE.gen_scenario(v), "bfs", dict(depth=3 if tier == "thorough" else 2, budget=60000, hints=FS_HINTS)))
+    return P
+
+
 def replay(doc):
     if doc.get("adapter", "").startswith("c02-component"):
         return comp.replay(doc)
@@ -25,7 +39,7 @@ def replay(doc):
 
 def run(tier, is_known):
     t0 = time.time()
-    res = c01.explore(tier, is_known, lambda: [EE.SpaceOracle()], PROP)
+    res = c01.explore(tier, is_known, lambda: [EE.SpaceOracle()], PROP, plan=plan(tier))
     cres = comp.run(tier)
     res["violations"] += cres["violations"]
     cov = res["coverage"]
